@@ -151,7 +151,7 @@ static void part2() {
    auto mkarg = [](char sk, const char* lk, Kind k) { Arg a; a.sk = sk; a.lk = lk; a.kind = k; return a; };
    auto use = [](int a, const char* v) { Use u; u.arg = a; if (v) { u.hasval = true; u.val = v; } return u; };
    { Cfg c; c.args = {mkarg('i', "input", INT), mkarg('s', "str", STR), mkarg('l', "list", VECINT), mkarg('v', "verbose", FLAG)};
-     setups.push_back({c, {use(0, "5"), use(0, "-6"), use(1, "x y"), use(1, "a'b\"c"), use(1, "end "), use(2, "1,2"), use(2, "3"), use(3, nullptr)}}); }
+     setups.push_back({c, {use(0, "5"), use(0, "-6"), use(1, "x y"), use(1, "a'b\"c"), use(1, "end "), use(1, "x #y"), use(2, "1,2"), use(2, "3"), use(3, nullptr)}}); }
    { Cfg c; Arg m = mkarg('m', "must", INT); m.mandatory = true; Check ck; ck.type = 3; ck.a = 3; ck.b = 7; m.checks = {ck}; Arg l = mkarg('l', "list", VECSTR); l.card = 2; l.cardA = 2;
      c.args = {m, l, mkarg('v', "verbose", FLAG)}; setups.push_back({c, {use(0, "3"), use(0, "7"), use(0, "6"), use(1, "a,b"), use(1, "c"), use(2, nullptr)}}); }
    { Cfg c; Arg n = mkarg('n', "numbers", VECINT); n.multival = true; n.card = 2; n.cardA = 2; c.args = {n, mkarg('v', "verbose", FLAG)};
